@@ -82,8 +82,8 @@ Fixpoint plan_loop (B : Z) (u : list channel) (dev en : list Z) (cur : Z) (l : l
          Ok (mkPayload 0 0 m (k mod 256) 0 :: r)
   end.
 
-(* band.go:538-588 *)
-Definition plan_generic (B : Z) (s : st) (dev : list Z) : outcome (list payload) :=
+(* band.go:538-588, after the device list has been restricted to the plan *)
+Definition plan_generic_core (B : Z) (s : st) (dev : list Z) : outcome (list payload) :=
   let en := get_enabled_uplink_channel_indices s in
   let diff := int_slice_diff dev en in
   do fd <- filtered_diff (up s) dev diff;
@@ -92,6 +92,18 @@ Definition plan_generic (B : Z) (s : st) (dev : list Z) : outcome (list payload)
   | _, [] => Ok []
   | _, _ => plan_loop B (up s) dev en (-1) (sort_ints diff)
   end.
+
+(* the device channels that are part of the plan: indices outside 0..n-1 are
+   dropped, in order, duplicates kept (fix for finding C14-4: before it the
+   planner emitted a payload for block c/16 of every such index c) *)
+Definition known_channels (n : Z) (dev : list Z) : list Z :=
+  filter (fun c => (c >=? 0) && (c <? n)) dev.
+
+Definition plan_generic (B : Z) (s : st) (dev : list Z) : outcome (list payload) :=
+  plan_generic_core B s (known_channels (zlen (up s)) dev).
+
+(* the code before the fix *)
+Definition plan_generic_prefix := plan_generic_core.
 
 (* ---- apply: band.go:590-623 -------------------------------------------- *)
 
@@ -168,6 +180,13 @@ Definition plan_us_alt (B : Z) (s : st) : list payload :=
 (* band_us902_928.go:63-107 *)
 Definition plan_us (B : Z) (s : st) (dev : list Z) : outcome (list payload) :=
   do a <- plan_generic B s dev;
+  let o := plan_us_alt B s in
+  Ok (if (length a <? length o)%nat then a else o).
+
+(* the same on an already restricted device list (the override uses the device
+   list only through the generic planner) *)
+Definition plan_us_core (B : Z) (s : st) (dev : list Z) : outcome (list payload) :=
+  do a <- plan_generic_core B s dev;
   let o := plan_us_alt B s in
   Ok (if (length a <? length o)%nat then a else o).
 
